@@ -166,6 +166,16 @@ class CodecWalk(sym.Walker):
         elif k == "Bin" and x["op"] == "=" and sk(x["a"][0]).get("k") == "Ref" and \
                 (sk(x["a"][0]).get("t") or {}).get("k") == "int":
             nm = sk(x["a"][0])["ref"]["name"]
+            fm0 = self.lin(x["a"][1], st)
+            if fm0 is not None and not fm0[0]:
+                # a constant: its bits are known too (the padding arm of a helper that fetches the next input byte)
+                bm = dict(st.user.get("bits", {}))
+                bm[nm] = bits.conv(bits.const_bits(fm0[1]), sk(x["a"][0]).get("t"))
+                st.user["bits"] = bm
+            elif nm in st.user.get("bits", {}):
+                bm = dict(st.user.get("bits", {}))
+                del bm[nm]                      # overwritten by something the bit engine does not follow
+                st.user["bits"] = bm
             if self.lin(x["a"][1], st) is None or any(not isinstance(kk, str) or "[" in kk for kk in (self.lin(x["a"][1], st) or ({}, 0))[0]):
                 bm = dict(st.user.get("bits", {}))
                 bm[nm] = bits.conv(bits.ev(x["a"][1], self.leaf(st), self.cond_truth(st)), sk(x["a"][0]).get("t"))
